@@ -671,11 +671,21 @@ func (fr *Frame) applyContract(i *ssa.Call, callee *ssa.Function, c *Contract, a
 	if rc := e.contractOf[x.root]; rc != nil && rc.Use != nil {
 		useOnly = rc.Use[callee.Name()]
 	}
+	if x.contractDepth == nil {
+		x.contractDepth = map[*ssa.Function]int{}
+	}
 	for _, cl := range c.clauses("ensures") {
 		if useOnly != nil && cl.Label != "" && !useOnly[cl.Label] {
 			continue // the caller declared which labelled postconditions it relies on
 		}
+		if !check && x.contractDepth[callee] >= 1 {
+			// a postcondition that mentions the function itself (through a spec function) is
+			// unfolded once; deeper applications are just the function symbols
+			continue
+		}
+		x.contractDepth[callee]++
 		t := fr.evalClause(callee, cl, all, st, g)
+		x.contractDepth[callee]--
 		x.assume(g, t)
 	}
 	if c.Flags["trusted"] {
